@@ -983,6 +983,9 @@ func init() {
 				c.StateStoreDiscipline("C10", s, "prop")
 				c.BadgerBufferDiscipline("C11") // the import compares against records read through FetchAll
 			}
+			// ... and only if the rules are asked about the key the signature is made with (an imported record for K does not
+			// protect K when the rules look a request up under another byte string)
+			c.SigningRootProvenance("C10")
 		},
 		Explanation: "The import command opens and writes the store only below [version == \"5\"], [configured root set] and [configured root == file root]; every entry of the file reaches the outgoing map or fails the import; the record written for a key is raised, field by field, to at least the existing database record and any earlier entry for the key (all stores to the record are monotone); numbers are used only below [err == nil] and [value >= 0]; the rules-level import stores every value other than -1 under the action the rules read it under, with the same encoder, and returns store errors. See DESIGN.md §5 C10.",
 		Trusted:     append([]string{"JSON decoding", "what other clients put in interchange files"}, commonTrusted...),
